@@ -5,6 +5,7 @@ of the tree model into the Python objects `==` sees, and facts about the stated 
 -/
 import HtmlVerif.Lemmas.SrcTie
 import HtmlVerif.Model.Equality
+import HtmlVerif.Model.Json
 import HtmlVerif.Py.PrimC08
 import HtmlVerif.Generated.Src
 
@@ -91,21 +92,21 @@ def equalsSpec (objEq : PVal → PVal → PyM PVal) (c : String) (fs : List (Str
 
 /-! ### the Python objects `==` sees -/
 
-def embKv (d : List (Str × Str)) : PVal := .dict (d.map fun kv => (kv.1, .str kv.2))
-def embKvs (ds : List (List (Str × Str))) : PVal := .list (ds.map embKv)
+def embEKv (d : List (Str × Str)) : PVal := .dict (d.map fun kv => (kv.1, .str kv.2))
+def embEKvs (ds : List (List (Str × Str))) : PVal := .list (ds.map embEKv)
 
 /-- `source=` as stored: None, `{"href": …}`, `{"subdir": …}` or `{"subdir": …, "package": …}` -/
-def embSource : DepSource → PVal
+def embESource : DepSource → PVal
   | .none => .none
   | .href h => .dict [("href".toList, .str h)]
   | .subdir none d _ => .dict [("subdir".toList, .str d)]
   | .subdir (some p) d _ => .dict [("subdir".toList, .str d), ("package".toList, .str p)]
 
 /-- a `packaging` Version: its text and its rank in packaging's order -/
-def embVersion (d : DepInfo) : PVal := .obj "Version" [("__str__", .str d.version), ("rank", .int d.vrank)]
+def embEVersion (d : DepInfo) : PVal := .obj "Version" [("__str__", .str d.version), ("rank", .int d.vrank)]
 
 /-- a TagList with the given `data` -/
-def tagListOf (l : List PVal) : PVal := .obj "TagList" [("data", .list l)]
+def eqTagList (l : List PVal) : PVal := .obj "TagList" [("data", .list l)]
 
 mutual
   /-- a node as the Python object `==` sees: every library object with its whole `__dict__`, in attribute-creation
@@ -115,15 +116,15 @@ mutual
   def embE : Node → PVal
     | .tag name ws attrs kids =>
       .obj "Tag" [("name", .str name), ("add_ws", .bool ws), ("attrs", embAttrs attrs),
-                  ("children", tagListOf (embEs kids)), ("prev_displayhook", .none)]
+                  ("children", eqTagList (embEs kids)), ("prev_displayhook", .none)]
     | .text s => .str s
     | .html s => .html s
     | .robj s => .obj "EqReprObj" [("s", .str s)]
     | .mnode n => .obj "EqMeta" [("n", .int n)]
     | .dep d hh head =>
-      .obj "HTMLDependency" [("name", .str d.name), ("version", embVersion d), ("source", embSource d.source),
-        ("script", embKvs d.script), ("stylesheet", embKvs d.stylesheet), ("meta", embKvs d.metas),
-        ("all_files", .bool d.allFiles), ("head", if hh then tagListOf (embEs head) else .none)]
+      .obj "HTMLDependency" [("name", .str d.name), ("version", embEVersion d), ("source", embESource d.source),
+        ("script", embEKvs d.script), ("stylesheet", embEKvs d.stylesheet), ("meta", embEKvs d.metas),
+        ("all_files", .bool d.allFiles), ("head", if hh then eqTagList (embEs head) else .none)]
     | .tobjL _ _ => .obj "TagifiableObj" [("tagify", .none)]
     | .tobj1 _ _ => .obj "TagifiableObj" [("tagify", .none)]
   def embEs : Nodes → List PVal
@@ -247,8 +248,8 @@ theorem pyEqDict_kv (o) (a b : List (Str × Str)) :
       · have : (some w == some v) = false := by simp [Ne.symm hvw]
         simp [hvw, this]
 
-theorem pyEqWith_kv (o) (a b : List (Str × Str)) : pyEqWith o (embKv a) (embKv b) = .ok (kvDictEqv a b) := by
-  simp only [embKv, pyEqWith_dict_dict, List.length_map, kvDictEqv, pyEqDict_kv]
+theorem pyEqWith_ekv (o) (a b : List (Str × Str)) : pyEqWith o (embEKv a) (embEKv b) = .ok (kvDictEqv a b) := by
+  simp only [embEKv, pyEqWith_dict_dict, List.length_map, kvDictEqv, pyEqDict_kv]
   cases a.length == b.length <;> simp
 
 theorem kvDictsEqv_length (a b : List (List (Str × Str))) (h : kvDictsEqv a b = true) : a.length = b.length := by
@@ -262,20 +263,20 @@ theorem kvDictsEqv_length (a b : List (List (Str × Str))) (h : kvDictsEqv a b =
       simp [ih u h.2]
 
 theorem pyEqList_kvs (o) (a b : List (List (Str × Str))) :
-    pyEqListWith o (a.map embKv) (b.map embKv) = .ok (kvDictsEqv a b) := by
+    pyEqListWith o (a.map embEKv) (b.map embEKv) = .ok (kvDictsEqv a b) := by
   induction a generalizing b with
   | nil => cases b <;> rfl
   | cons x r ih =>
     cases b with
     | nil => rfl
     | cons y u =>
-      simp only [List.map_cons, pyEqListWith, pyEqWith_kv, ok_bind, kvDictsEqv]
+      simp only [List.map_cons, pyEqListWith, pyEqWith_ekv, ok_bind, kvDictsEqv]
       cases kvDictEqv x y
       · rfl
       · simpa using ih u
 
-theorem pyEqWith_kvs (o) (a b : List (List (Str × Str))) : pyEqWith o (embKvs a) (embKvs b) = .ok (kvDictsEqv a b) := by
-  simp only [embKvs, pyEqWith_list_list, List.length_map, pyEqList_kvs]
+theorem pyEqWith_ekvs (o) (a b : List (List (Str × Str))) : pyEqWith o (embEKvs a) (embEKvs b) = .ok (kvDictsEqv a b) := by
+  simp only [embEKvs, pyEqWith_list_list, List.length_map, pyEqList_kvs]
   by_cases h : a.length = b.length
   · simp [h]
   · have : kvDictsEqv a b = false := by
@@ -284,7 +285,7 @@ theorem pyEqWith_kvs (o) (a b : List (List (Str × Str))) : pyEqWith o (embKvs a
       | true => exact absurd (kvDictsEqv_length a b hq) h
     simp [h, this]
 
-theorem pyEqWith_source (o) (a b : DepSource) : pyEqWith o (embSource a) (embSource b) = .ok (sourceEqv a b) := by
+theorem pyEqWith_source (o) (a b : DepSource) : pyEqWith o (embESource a) (embESource b) = .ok (sourceEqv a b) := by
   cases a with
   | none => cases b with
     | none => rfl
@@ -293,26 +294,26 @@ theorem pyEqWith_source (o) (a b : DepSource) : pyEqWith o (embSource a) (embSou
   | href h => cases b with
     | none => rfl
     | href h' =>
-      simp [embSource, pyEqWith_dict_dict, pyEqDictWith, Py.dictGet?, sourceEqv, pyEqWith_str_str]
+      simp [embESource, pyEqWith_dict_dict, pyEqDictWith, Py.dictGet?, sourceEqv, pyEqWith_str_str]
       by_cases e : h = h' <;> simp [e]
     | subdir p d x =>
-      cases p <;> simp [embSource, pyEqWith_dict_dict, pyEqDictWith, Py.dictGet?, sourceEqv]
+      cases p <;> simp [embESource, pyEqWith_dict_dict, pyEqDictWith, Py.dictGet?, sourceEqv]
   | subdir p d x => cases b with
     | none => cases p <;> rfl
-    | href h' => cases p <;> simp [embSource, pyEqWith_dict_dict, pyEqDictWith, Py.dictGet?, sourceEqv]
+    | href h' => cases p <;> simp [embESource, pyEqWith_dict_dict, pyEqDictWith, Py.dictGet?, sourceEqv]
     | subdir p' d' x' =>
       cases p with
       | none =>
         cases p' with
         | none =>
-          simp [embSource, pyEqWith_dict_dict, pyEqDictWith, Py.dictGet?, sourceEqv, pyEqWith_str_str]
+          simp [embESource, pyEqWith_dict_dict, pyEqDictWith, Py.dictGet?, sourceEqv, pyEqWith_str_str]
           by_cases e : d = d' <;> simp [e]
-        | some q' => simp [embSource, pyEqWith_dict_dict, sourceEqv]
+        | some q' => simp [embESource, pyEqWith_dict_dict, sourceEqv]
       | some q =>
         cases p' with
-        | none => simp [embSource, pyEqWith_dict_dict, sourceEqv]
+        | none => simp [embESource, pyEqWith_dict_dict, sourceEqv]
         | some q' =>
-          simp [embSource, pyEqWith_dict_dict, pyEqDictWith, Py.dictGet?, sourceEqv, pyEqWith_str_str]
+          simp [embESource, pyEqWith_dict_dict, pyEqDictWith, Py.dictGet?, sourceEqv, pyEqWith_str_str]
           by_cases e : d = d' <;> by_cases e' : q = q' <;> simp [e, e']
 
 /-! ### `==` with an instance of a library class on either side -/
@@ -336,7 +337,7 @@ theorem equalsSpec_not_inst (o) (c fs y) (h : isInstanceTypeOf y (.obj c fs) = f
     equalsSpec o c fs y = .ok (.bool false) := by
   simp [equalsSpec, h]
 
-theorem natCast_beq (a b : Nat) : ((a : Int) == (b : Int)) = (a == b) := by
+theorem eq_natCast_beq (a b : Nat) : ((a : Int) == (b : Int)) = (a == b) := by
   rw [Bool.eq_iff_iff, beq_iff_eq, beq_iff_eq]; omega
 
 theorem eqKind_obj_ne_builtin (c : String) (fs) : eqKind (.obj c fs) ≠ .builtin := by
@@ -364,8 +365,46 @@ theorem pyEqWith_builtin_lib (o) (a : PVal) (c : String) (fs) (ha : eqKind a = .
 theorem unwrapHtml_builtin (a : PVal) (ha : eqKind a = .builtin) : eqKind (unwrapHtml a) = .builtin := by
   cases a <;> first | exact ha | rfl
 
-theorem pyEqWith_version (o) (d d' : DepInfo) : pyEqWith o (embVersion d) (embVersion d') = .ok (d.vrank == d'.vrank) := by
-  rw [embVersion, embVersion, pyEqWith_flat_obj]
-  simp [pyEqFlat, eqKind, eqLibClass, eqHelperField, eqVersion, fieldGet?, natCast_beq]
+theorem pyEqWith_version (o) (d d' : DepInfo) : pyEqWith o (embEVersion d) (embEVersion d') = .ok (d.vrank == d'.vrank) := by
+  rw [embEVersion, embEVersion, pyEqWith_flat_obj]
+  simp [pyEqFlat, eqKind, eqLibClass, eqHelperField, eqVersion, fieldGet?, eq_natCast_beq]
+
+/-! ### `str.replace("</", "<\\/")` is the model's one-pass `neutralise` -/
+
+theorem replaceGo_neut_len (n : Nat) : ∀ s : Str, s.length ≤ n →
+    replaceGo ['<', '/'] ['<', '\\', '/'] 0 s = neutG false s := by
+  induction n with
+  | zero =>
+    intro s hs
+    cases s with
+    | nil => rfl
+    | cons c r => simp at hs
+  | succ n ih =>
+    intro s hs
+    cases s with
+    | nil => rfl
+    | cons c r =>
+      have hr : r.length ≤ n := by simp at hs; omega
+      by_cases hc : c = '<'
+      · subst hc
+        cases r with
+        | nil => rfl
+        | cons d r' =>
+          by_cases hd : d = '/'
+          · subst hd
+            have hr' : r'.length ≤ n := by simp at hr; omega
+            simp [replaceGo, neutG, ih r' hr']
+          · have hd' : ¬ '/' = d := fun e => hd e.symm
+            have h1 : replaceGo ['<', '/'] ['<', '\\', '/'] 0 ('<' :: d :: r')
+                = '<' :: replaceGo ['<', '/'] ['<', '\\', '/'] 0 (d :: r') := by
+              simp [replaceGo, List.isPrefixOf, hd']
+            rw [h1, ih (d :: r') hr]
+            simp [neutG, hd]
+      · have hc' : ¬ '<' = c := fun e => hc e.symm
+        have h1 : replaceGo ['<', '/'] ['<', '\\', '/'] 0 (c :: r) = c :: replaceGo ['<', '/'] ['<', '\\', '/'] 0 r := by
+          simp [replaceGo, List.isPrefixOf, hc']
+        have hb : (c == '<') = false := by simp [hc]
+        rw [h1, ih r hr]
+        simp [neutG, hb]
 
 end HtmlVerif.SrcTie
